@@ -128,7 +128,7 @@ Qed.
    hold for the real functions exactly as long as nu is below a limit that depends on p_th (measured
    on every run, evidence key boring_premise_end_lo_holds_up_to_nu: 8.6e6 for p_th = 0.01, 3.2e6
    for 0.02): beyond it the Student tail is within the interpolation error of the normal one, the
-   premise is false and SO IS THE CONCLUSION - c11_boring_needs_end_lo below and finding finding C11-boring-huge-nu
+   premise is false and SO IS THE CONCLUSION - c11_boring_needs_end_lo below and finding F22 (C11-boring-huge-nu)
    (reproduced with the real score_differential_genes on two clusters of 1e7 cells).  The others
    describe the setting (eps <= 0.5 <= ceil <= 1, p_th <= 1, boring_t >= 0). *)
 
